@@ -24,7 +24,7 @@ import (
 
 func init() {
 	register(&Prop{
-		ID: "C12",
+		ID:   "C12",
 		Rule: "per case 16 or 64 goroutines are released together behind a barrier and call Apply 4 times each, under the race detector, with GOMAXPROCS cycling through 2, 4 and 16; modes: (a) a different document per goroutine, (b) ONE shared parsed tree for all goroutines, (c) shared tree + one shared *Options + shared *url.URL, (d) shared tree with sub-element roots and every log-flag set (32) across goroutines; both pagination algorithms. Documents contain every construct that makes the pipeline rewrite nodes (javascript: anchors, font, noscript/lazy images, picture without img, embeds, twitter quotes, figures, data tables) plus a pager. Every concurrent result is compared with the result of the same (root, options) computed sequentially before. Each call records (start, end) from the monotonic clock so the run can report how concurrent it actually was. Non-trivial = a case with overlapping calls; distinct = distinct (mode, goroutines, GOMAXPROCS, observed max overlap bucket).",
 		Assumptions: []string{
 			"the race detector sees only accesses that were executed; happens-before based, so a reported race is real regardless of timing",
